@@ -25,6 +25,7 @@ func TestMain(m *testing.M) {
 	vcore.Init("C14", "exploration",
 		"exhaustive QFI 0..63 x PDU type 0..15 x {with,without} PDU Session Container x boundary payload lengths x boundary TEIDs, "+
 			"plus rapid-drawn TEIDs/payloads (0..9000 B); every encoded packet is parsed by an independent TS 29.281 / TS 38.415 reference decoder. "+
+			"The real Gtp5g.WritePacket is driven over a loopback socket for QFI none/0..63 x 4 TEIDs x 27 payload lengths (0..5, around 1400, every length 1495..1504, around 2048 / 4096, 8192, 9000) and rapid-drawn lengths, and the datagram received is decoded the same way. "+
 			"non-trivial = extension present with QFI >= 16, or payload length not a multiple of 4; distinct by (ext,pdutype,qfi,len,teid)",
 		"header form fixed to flags 0x34 (version 1, PT=1, E=1) as emitted by Gtp5g.WritePacket",
 		"reference decoder written from TS 29.281 5.1/5.2 and TS 38.415 5.5.2, not from internal/gtpv1")
@@ -254,52 +255,62 @@ func writePacket(t *testing.T) {
 		t.Fatalf("infrastructure: %v", err)
 	}
 	defer gnb.Conn.Close()
+	one := func(t vcore.Failer, teid uint32, qfi, l int) {
+		far := &gtp5gnl.FAR{Param: &gtp5gnl.ForwardParam{Creation: &gtp5gnl.HeaderCreation{Desc: 0x0100, TEID: teid, PeerAddr: net.ParseIP(n.IP(10)).To4(), Port: 2152}}}
+		var qer *gtp5gnl.QER
+		if qfi >= 0 {
+			qer = &gtp5gnl.QER{QFI: uint8(qfi)}
+			if l%2 == 1 {
+				// a QER as the data plane really hands it back: every other field set as well (reflective QoS, paging
+				// policy, gates, rates ...); the packet is a downlink G-PDU of PDU type 0 with this QFI all the same
+				qer.ID, qer.Gate, qer.CorrID, qer.RQI, qer.PPI = 0xfffffffe, 0x0f, 0xffffffff, 1, 7
+				qer.MBR.ULHigh, qer.MBR.DLHigh, qer.GBR.ULHigh, qer.GBR.DLHigh = 0xffffffff, 0xffffffff, 0xffffffff, 0xffffffff
+				qer.PDRIDs = []uint16{1, 0xffff}
+			}
+		}
+		pl := payload(l, byte(qfi))
+		c := Case{WithExt: qfi >= 0, QFI: uint8(max(qfi, 0)), TEID: teid, Payload: pl}
+		account(c)
+		vcore.E.Class("through_WritePacket")
+		if err := safeWrite(func() error { return d.G.WritePacket(far, qer, pl) }); err != nil {
+			vcore.Report(t, vcore.Violatef("writepacket-error", "WritePacket: %v", err), c)
+			return
+		}
+		b, err := gnb.RecvTimeout(5 * time.Second)
+		if err != nil {
+			vcore.Report(t, vcore.Violatef("writepacket-lost", "re-injected packet did not arrive: %v", err), c)
+			return
+		}
+		p, derr := gtpref.Decode(b)
+		if derr != nil {
+			vcore.Report(t, vcore.Violatef("malformed", "WritePacket: reference decoder rejects the datagram: %v", derr), c)
+			return
+		}
+		q, has := p.QFI()
+		if first, units, ok := p.PSC(); ok && (first != 0 || units != 1) {
+			// a re-injected downlink packet: PDU type 0, no optional PSC fields announced, one 4-octet unit
+			vcore.Report(t, vcore.Violatef("writepacket-psc", "WritePacket(teid %#x, qfi %d, QER %+v): PDU Session Container starts with octet %#02x (PDU type %d, flags %#x) in %d unit(s); want PDU type 0 in one unit",
+				teid, qfi, *qer, first, first>>4, first&0x0f, units), c)
+		}
+		if p.Version != 1 || p.PT != 1 || p.Type != 255 || p.TEID != teid || !bytes.Equal(p.Payload, pl) || has != (qfi >= 0) || (has && int(q) != qfi) {
+			vcore.Report(t, vcore.Violatef("writepacket-fields", "WritePacket(teid %#x, qfi %d, %d payload bytes) produced version %d pt %d type %d teid %#x qfi %d (present %v) payload %d bytes",
+				teid, qfi, l, p.Version, p.PT, p.Type, p.TEID, q, has, len(p.Payload)), c)
+		}
+	}
+	// payload lengths around the alignment units, around the 1500-octet MTU (with and without the 4 octets of the
+	// PDU Session Container), around powers of two and jumbo frames: a buffered packet is whatever the kernel held
+	lens := []int{0, 1, 2, 3, 4, 5, 1399, 1400, 1401, 1495, 1496, 1497, 1498, 1499, 1500, 1501, 1502, 1503, 1504, 2047, 2048, 2049, 4095, 4096, 4097, 8192, 9000}
 	for _, teid := range []uint32{0, 1, 0x80000000, 0xffffffff} {
 		for qfi := -1; qfi < 64; qfi++ {
-			for _, l := range []int{0, 1, 3, 4, 5, 1400, 1401} {
-				far := &gtp5gnl.FAR{Param: &gtp5gnl.ForwardParam{Creation: &gtp5gnl.HeaderCreation{Desc: 0x0100, TEID: teid, PeerAddr: net.ParseIP(n.IP(10)).To4(), Port: 2152}}}
-				var qer *gtp5gnl.QER
-				if qfi >= 0 {
-					qer = &gtp5gnl.QER{QFI: uint8(qfi)}
-					if l%2 == 1 {
-						// a QER as the data plane really hands it back: every other field set as well (reflective QoS, paging
-						// policy, gates, rates ...); the packet is a downlink G-PDU of PDU type 0 with this QFI all the same
-						qer.ID, qer.Gate, qer.CorrID, qer.RQI, qer.PPI = 0xfffffffe, 0x0f, 0xffffffff, 1, 7
-						qer.MBR.ULHigh, qer.MBR.DLHigh, qer.GBR.ULHigh, qer.GBR.DLHigh = 0xffffffff, 0xffffffff, 0xffffffff, 0xffffffff
-						qer.PDRIDs = []uint16{1, 0xffff}
-					}
-				}
-				pl := payload(l, byte(qfi))
-				c := Case{WithExt: qfi >= 0, QFI: uint8(max(qfi, 0)), TEID: teid, Payload: pl}
-				account(c)
-				vcore.E.Class("through_WritePacket")
-				if err := safeWrite(func() error { return d.G.WritePacket(far, qer, pl) }); err != nil {
-					vcore.Report(t, vcore.Violatef("writepacket-error", "WritePacket: %v", err), c)
-					continue
-				}
-				b, err := gnb.RecvTimeout(5 * time.Second)
-				if err != nil {
-					vcore.Report(t, vcore.Violatef("writepacket-lost", "re-injected packet did not arrive: %v", err), c)
-					continue
-				}
-				p, derr := gtpref.Decode(b)
-				if derr != nil {
-					vcore.Report(t, vcore.Violatef("malformed", "WritePacket: reference decoder rejects the datagram: %v", derr), c)
-					continue
-				}
-				q, has := p.QFI()
-				if first, units, ok := p.PSC(); ok && (first != 0 || units != 1) {
-					// a re-injected downlink packet: PDU type 0, no optional PSC fields announced, one 4-octet unit
-					vcore.Report(t, vcore.Violatef("writepacket-psc", "WritePacket(teid %#x, qfi %d, QER %+v): PDU Session Container starts with octet %#02x (PDU type %d, flags %#x) in %d unit(s); want PDU type 0 in one unit",
-						teid, qfi, *qer, first, first>>4, first&0x0f, units), c)
-				}
-				if p.Version != 1 || p.PT != 1 || p.Type != 255 || p.TEID != teid || !bytes.Equal(p.Payload, pl) || has != (qfi >= 0) || (has && int(q) != qfi) {
-					vcore.Report(t, vcore.Violatef("writepacket-fields", "WritePacket(teid %#x, qfi %d, %d payload bytes) produced version %d pt %d type %d teid %#x qfi %d (present %v) payload %d bytes",
-						teid, qfi, l, p.Version, p.PT, p.Type, p.TEID, q, has, len(p.Payload)), c)
-				}
+			for _, l := range lens {
+				one(t, teid, qfi, l)
 			}
 		}
 	}
+	vcore.Check(t, vcore.N(1500, 20000), func(rt *rapid.T) {
+		l := rapid.OneOf(rapid.IntRange(0, 9000), rapid.IntRange(1480, 1520), rapid.IntRange(0, 64)).Draw(rt, "len")
+		one(rt, rapid.Uint32().Draw(rt, "teid"), rapid.IntRange(-1, 63).Draw(rt, "qfi"), l)
+	})
 }
 
 func TestC14(t *testing.T) {
